@@ -1117,6 +1117,17 @@ pub fn main_with(props: Vec<Prop>) -> ! {
             coverage["fuzz"] = v;
         }
     }
+    if let Ok(list) = std::env::var("VERIF_MERGE") {
+        // other stages of the same check (e.g. the serial/concurrent differential of the thread clause):
+        // "<key>=<evidence file>,..." -> coverage[key] = that stage's coverage and verdict
+        for item in list.split(',') {
+            if let Some((k, p)) = item.split_once('=') {
+                if let Some(v) = std::fs::read_to_string(p).ok().and_then(|s| serde_json::from_str::<Value>(&s).ok()) {
+                    coverage[k] = json!({"coverage": v["coverage"], "violations": v["violations"], "exit_code": v["exit_code"], "wall_s": v["wall_s"]});
+                }
+            }
+        }
+    }
     if exhaustive || !total.exhaustive_spaces.is_empty() {
         coverage["exhaustive"] = json!(exhaustive);
         coverage["exhaustive_spaces"] = json!(total.exhaustive_spaces);
@@ -1134,7 +1145,8 @@ pub fn main_with(props: Vec<Prop>) -> ! {
     });
     if opts.only_sub.is_none() {
         let _ = std::fs::create_dir_all(format!("{}/evidence", opts.verif_dir));
-        let path = format!("{}/evidence/{}.json", opts.verif_dir, prop.id);
+        let name = std::env::var("VERIF_EVIDENCE_NAME").unwrap_or_else(|_| prop.id.to_string());
+        let path = format!("{}/evidence/{}.json", opts.verif_dir, name);
         std::fs::write(&path, serde_json::to_string_pretty(&evidence).unwrap()).expect("write evidence");
     }
     println!(
